@@ -58,7 +58,8 @@ def rule_wrapper_release(repo: Repo, rep: Report) -> None:
                 n = s.node
                 if isinstance(n, ast.Call) and isinstance(n.func, ast.Attribute) and dotted(n.func.value) == "self":
                     hlp = cls.child(n.func.attr)
-                    idx = next((i for i, a in enumerate(n.args) if isinstance(a, ast.Attribute) and dotted(a.value) == "self" and a.attr.startswith("_on_")), None)
+                    from ..astutil import handed_callback
+                    idx = next((i for i, a in enumerate(n.args) if handed_callback(a)), None)
                     if hlp is not None and hlp.is_func and idx is not None and len(hlp.params) > idx + 1:
                         pname = hlp.params[idx + 1]
                         cb = [x for x in sites(hlp) if isinstance(x.node, ast.Call) and isinstance(x.node.func, ast.Name) and x.node.func.id == pname]
